@@ -242,7 +242,7 @@ def gen_history(draw, tier="quick", twin=False):
     case["pos"] = draw(gens.point_cloud(dim, n_min=n, n_max=n, kinds=("cloud",)))
     max_ops = 6 if tier == "quick" else 14
     nops = draw(st.integers(2, max_ops))
-    kinds = ["call_seed", "call_same", "call_nan", "param", "param", "restore", "reassign", "seed_setter", "update"]
+    kinds = ["call_seed", "call_same", "call_nan", "call_nopos", "param", "param", "restore", "reassign", "seed_setter", "update"]
     if twin:
         kinds = ["call_seed", "call_same", "call_same", "call_nan", "param", "seed_setter", "update"]
     if g == "Fourier":
@@ -285,6 +285,11 @@ def gen_history(draw, tier="quick", twin=False):
                 op["period"] = draw(st.one_of(st.none(), logfloat(2, 30).map(lambda x: [x])))
                 op["fmodes"] = draw(st.one_of(st.none(), st.sampled_from([[4], [8], [16]])))
         ops.append(op)
+    if not twin and dim > 1 and g != "VectorField" and draw(st.integers(0, 2)) == 0:
+        # motif: evaluate, change the geometry of the model in place, evaluate again without passing the positions
+        ops.append({"op": "call_nan"})
+        ops.append({"op": "param", "name": draw(st.sampled_from(["anis", "angles"])), "factor": draw(st.one_of(logfloat(1.3, 4.0), logfloat(0.25, 0.8))), "idx": draw(st.integers(0, 2))})
+        ops.append({"op": "call_nopos"})
     # always end with a call so that the last change is observed
     ops.append({"op": "call_nan"})
     case["ops"] = ops
@@ -383,6 +388,7 @@ def check_history(case, rec):
         srf = lib(gs.SRF, model, generator=g, seed=case["seed"], **kw, _tags=tags)
         cur_seed = case["seed"]
         orig = build_model(spec)
+        moved = True  # the requested points differ from the ones the object holds (nothing yet)
         for i, op in enumerate(case["ops"]):
             k = op["op"]
             where = f"op {i} {op}"
@@ -395,8 +401,13 @@ def check_history(case, rec):
                         f = srf(pos, seed=cur_seed)
                     elif k == "call_same":
                         f = srf(pos, seed=int(str(cur_seed)))
+                    elif k == "call_nopos" and srf.pos is not None and not moved:
+                        # the documented ensemble pattern: positions are kept by the object and not passed again
+                        f = srf()
+                        rec.label("call_without_pos")
                     else:
                         f = srf(pos)
+                    moved = False
                     _consistent(srf.generator, g, otags, where)
                     ref = _fresh_srf(srf.model, g, kw, cur_seed)(pos)
                     scale = math.sqrt(float(srf.model.var)) * (kw.get("mean_velocity", 1.0))
@@ -418,6 +429,7 @@ def check_history(case, rec):
                         dict(otags, kind="stale_state"),
                     )
                 elif k == "move_pos":
+                    moved = True
                     if op["how"] == "rel":
                         pos = pos * (1.0 + op["v"])
                     elif op["how"] == "abs":
